@@ -104,6 +104,9 @@ def build(desc, poly=False):
             ocp.subject_to(B[j].stage.t0 == B[i].stage.tf)
         elif c[0] == 'wge':
             ocp.subject_to(w >= B[c[1]].stage.at_tf(B[c[1]].xel[0]))
+        elif c[0] == 'wge8':
+            # the parent's own constraint declared with scale=8: residual and bounds divided by 8
+            ocp.subject_to(w >= B[c[1]].stage.at_tf(B[c[1]].xel[0]), scale=8)
     for p in desc['parent']:
         if p[0] == 'w2':
             ocp.add_objective(w * w)
@@ -161,7 +164,7 @@ def instances(tier, seed):
     tpl_off.cons = list(tpl_off.cons) + [Con('<=', offset(X(0) * t, 1) - X(0), 4), Con('>=', offset(X(1) + t, -1), X(0) - 6),
                                        Con('<=', X(1) * t, 6, include_first=False), Con('>=', X(0) + X(1), -8, include_last=False)]      # (placement flags travel with the clone)
     add(kind='clone', desc=dict(stages=[dict(spec=tpl_off, cfg=cfgs[0], t0=hz[2][0], T=hz[2][1], clone_of='tpl', pvals={}),
-                                        dict(spec=stage_model(1), cfg=cfgs[1], t0=hz[0][0], T=hz[0][1], clone_of=None)], coupling=[('cont', 0, 1), ('wge', 0)], parent=[('w2',)]))
+                                        dict(spec=stage_model(1), cfg=cfgs[1], t0=hz[0][0], T=hz[0][1], clone_of=None)], coupling=[('cont', 0, 1), ('wge8', 0)], parent=[('w2',)]))
     # a template with an explicitly declared quadrature state and DT / DT_control in its constraints
     from ..dsl import Q, DT, DTc
     tpl_q = stage_model(0)
@@ -256,6 +259,9 @@ def ref_all(inst, master, d, mut=None):
         elif c[0] == 'wge':
             i = c[1]
             atoms.append(('le', trs[i].X[trs[i].N][0] - wv, 'couple:w>=x%d' % i))
+        elif c[0] == 'wge8':
+            i = c[1]
+            atoms.append(('le', (trs[i].X[trs[i].N][0] - wv) / trs[i].dom.const(8), 'couple:(w>=x%d)/8' % i))
     for p in desc['parent']:
         if p[0] == 'w2':
             obj = obj + wv * wv
@@ -306,7 +312,7 @@ def run(item):
     desc = item['desc']
     with quiet():
         master = build(desc)
-    inst = Inst(None, None, seed=item.get('seed', 0), built=master, extra_outputs=lambda b: [b.ocp.value(b.w), b.ocp.value(b.w2), b.ocp.value(b.pa), b.ocp.value(b.pb)])
+    inst = Inst(None, None, seed=item.get('seed', 0), built=master, extra_outputs=lambda b: [b.ocp.value(b.w), b.ocp.value(b.w2), b.ocp.value(b.pa), b.ocp.value(b.pb), b.ocp.value(b.ocp.objective)])
     ch = Checker(inst)
     z3 = inst.z3
     viol = []
@@ -359,6 +365,10 @@ def run(item):
     if not ch.prove('f == sum of stage objectives + parent terms', fi, ro) and ch.violations:
         v = ch.violations.pop()
         V('objective', 'f', 'multi-stage objective is not the sum: %s' % {k: v.get(k) for k in ('how', 'impl', 'ref')})
+    # value(ocp.objective) of the multi-stage OCP is the cost that is minimised (own terms and those of every stage)
+    if not ch.prove('value(ocp.objective) == f', {d: inst.view(d)[5][4][0] for d in doms}, fi) and ch.violations:
+        v = ch.violations.pop()
+        V('objective-value', 'value(ocp.objective)', 'value(ocp.objective) of the multi-stage OCP differs from the NLP objective: %s' % {k: v.get(k) for k in ('how', 'impl', 'ref')})
     # the parent's own symbols: variables read back as decision variables, parameters as NLP parameters carrying the values that were set
     oz = inst.view('z')[5]
     xnames = {str(v) for v in inst.xv}
